@@ -1008,6 +1008,16 @@ async def op_graceful(env, ctx, step):
         raise
 
 
+async def op_fragile(env, ctx, step):
+    """a body whose clean-up fails: when it is forcefully closed it raises an exception of its
+    own instead (never awaits there, never swallows the close silently)"""
+    try:
+        await run_steps(env, ctx, step['body'])
+    except GeneratorExit:
+        env.sess.stats['failed_while_closed'] += 1
+        raise env.new_exc(step.get('kind', 'err'), step['tag'])
+
+
 async def op_try(env, ctx, step):
     """run the body, catch (only) exceptions raised by program code"""
     try:
@@ -1025,7 +1035,7 @@ HANDLERS = {
     'borrow': op_borrow, 'resource': op_resource, 'transfer': op_transfer,
     'scope': op_scope, 'spawn': op_spawn, 'cancel': op_cancel, 'await_task': op_await_task,
     'raise': op_raise, 'ticker': op_ticker, 'collect': op_collect, 'first': op_first,
-    'nop': op_nop, 'try': op_try, 'guard': op_guard, 'graceful': op_graceful,
+    'nop': op_nop, 'try': op_try, 'guard': op_guard, 'graceful': op_graceful, 'fragile': op_fragile,
 }
 
 
